@@ -445,7 +445,7 @@ impl Prop for C18 {
     fn runs(&self, tier: Tier) -> u64 {
         n_filter_runs(tier)
             + match tier {
-                Tier::Quick => 3000,
+                Tier::Quick => 12_000,
                 Tier::Thorough => 100_000,
             }
     }
